@@ -605,6 +605,29 @@ func getASN(m *bgp.BGPOpen) uint32 {
 	return asn
 }
 
+// negotiateTimers calculates the hold time and keepalive interval of the
+// session from the configuration and the received OPEN.
+//
+// RFC 4271 P.13
+// a BGP speaker MUST calculate the value of the Hold Timer
+// by using the smaller of its configured Hold Time and the Hold Time
+// received in the OPEN message.
+func negotiateTimers(conf *oc.Neighbor, open *bgp.BGPOpen) {
+	holdTime := float64(open.HoldTime)
+	myHoldTime := conf.Timers.Config.HoldTime
+	if holdTime > myHoldTime {
+		conf.Timers.State.NegotiatedHoldTime = myHoldTime
+	} else {
+		conf.Timers.State.NegotiatedHoldTime = holdTime
+	}
+
+	keepalive := conf.Timers.Config.KeepaliveInterval
+	if n := conf.Timers.State.NegotiatedHoldTime; n < myHoldTime {
+		keepalive = n / 3
+	}
+	conf.Timers.State.KeepaliveInterval = keepalive
+}
+
 func (fsm *fsm) stateChange(nextState bgp.FSMState, reason *fsmStateReason) {
 	fsm.lock.Lock()
 	conf := fsm.pConf.ReadCopy()
@@ -619,6 +642,16 @@ func (fsm *fsm) stateChange(nextState bgp.FSMState, reason *fsmStateReason) {
 		slog.String("reason", reason.String()))
 
 	switch nextState {
+	case bgp.BGP_FSM_OPENCONFIRM:
+		// RFC 4271 8.2.2: when a valid OPEN is received the HoldTimer is set
+		// according to the negotiated value and the KeepaliveTimer is started.
+		// The OpenConfirm state reads both from the timers state, so they must
+		// be negotiated here and not only once the session is established
+		// (otherwise OpenConfirm runs with the values of the previous session,
+		// or with no timers at all on the first one).
+		if fsm.recvOpen != nil {
+			negotiateTimers(&conf, fsm.recvOpen.Body.(*bgp.BGPOpen))
+		}
 	case bgp.BGP_FSM_ESTABLISHED:
 		remoteTCP := fsm.conn.RemoteAddr().(*net.TCPAddr)
 		remoteAddr, _ := netip.AddrFromSlice(remoteTCP.IP)
@@ -674,24 +707,7 @@ func (fsm *fsm) stateChange(nextState bgp.FSMState, reason *fsmStateReason) {
 		_, peerExt := fsm.capMap[bgp.BGP_CAP_EXTENDED_MESSAGE]
 		fsm.extendedMessage.Store(peerExt)
 
-		// calculate HoldTime
-		// RFC 4271 P.13
-		// a BGP speaker MUST calculate the value of the Hold Timer
-		// by using the smaller of its configured Hold Time and the Hold Time
-		// received in the OPEN message.
-		holdTime := float64(body.HoldTime)
-		myHoldTime := conf.Timers.Config.HoldTime
-		if holdTime > myHoldTime {
-			conf.Timers.State.NegotiatedHoldTime = myHoldTime
-		} else {
-			conf.Timers.State.NegotiatedHoldTime = holdTime
-		}
-
-		keepalive := conf.Timers.Config.KeepaliveInterval
-		if n := conf.Timers.State.NegotiatedHoldTime; n < myHoldTime {
-			keepalive = n / 3
-		}
-		conf.Timers.State.KeepaliveInterval = keepalive
+		negotiateTimers(&conf, body)
 
 		gr, ok := fsm.capMap[bgp.BGP_CAP_GRACEFUL_RESTART]
 		if conf.GracefulRestart.Config.Enabled && ok {
